@@ -40,5 +40,4 @@ def obligations():
         common.shared('C06', ['O6.5-script-selection', 'O6.1-filters', 'O6.1-filters-t'], 'O3', 'every block of a script range is examined: the filter batch is matched against every script whose range it touches, the '
                       'filtered height only advances over verified filters, script numbers only move when nothing is pending') +
         common.shared('C02', ['O2.5-add-block', 'O2.6-body-semantic'], 'O3', 'only proved, header-committed blocks are indexed, all matched blocks of a record, each once') +
-        common.shared('C04', ['O4.2-rollback', 'O4.2-rollback-prefix'], 'O3', 'after a fork switch the index holds no cell / history of the abandoned blocks') +
         common.shared('C13', ['O13.2-cells-order'], 'O3', 'get_cells returns exactly the indexed cells of the script'))
